@@ -79,12 +79,14 @@ class SplineBasis2D:
         self.x = _check_array(x, dtype=float, check_finite=check_finite, ensure_1d=True)
         self.z = _check_array(z, dtype=float, check_finite=check_finite, ensure_1d=True)
 
-        self.num_knots = _check_scalar_variable(
+        # copies so that later changes to arrays given by the caller cannot alter the settings
+        # that same_basis compares against
+        self.num_knots = np.array(_check_scalar_variable(
             num_knots, allow_zero=False, variable_name='number of knots', two_d=True, dtype=int
-        )
-        self.spline_degree = _check_scalar_variable(
+        ))
+        self.spline_degree = np.array(_check_scalar_variable(
             spline_degree, allow_zero=True, variable_name='spline degree', two_d=True, dtype=int
-        )
+        ))
 
         self.knots_r = _spline_knots(self.x, self.num_knots[0], self.spline_degree[0], True)
         self.basis_r = _spline_basis(self.x, self.knots_r, self.spline_degree[0])
